@@ -572,6 +572,15 @@ class CfgWorld:
         k = rng.random()
         if k < 0.35 and self.modules:
             m = rng.choice(self.modules); fn = rng.choice(sorted(m['files']))
+            cur = m['files'][fn]
+            if rng.random() < 0.25 and cur:
+                # an edit that changes line terminators only: LF <-> CRLF, final newline dropped / added (bytes are bytes)
+                if b'\r\n' in cur: new = cur.replace(b'\r\n', b'\n')
+                elif rng.random() < 0.5 and b'\n' in cur: new = cur.replace(b'\n', b'\r\n')
+                elif cur.endswith(b'\n'): new = cur[:-1]
+                else: new = cur + b'\n'
+                if new != cur and new:
+                    m['files'][fn] = new; return 'content_eol'
             if fn == 'SKILL.md':
                 m['files'][fn] = skill_md(m['id'].split(':')[1], rng.choice(['one', 'two', 'three']))
             elif m['type'] == 'command':
@@ -618,6 +627,14 @@ def user_edit(rng, cw, flt_hint=None, manifests=True):
             os.makedirs(os.path.dirname(p), exist_ok=True)
             os.symlink(own, p)
             return 'symlink'
+    if k < 0.56:
+        # user files that tree walkers tend to skip, INSIDE directories agentpack deploys into: version-control metadata of
+        # a skill the user tracks on their own, notes under .agentpack/
+        dirs = sorted({os.path.dirname(d['path']) for d in D} - {cw.project, cw.project + '/.github'})
+        if dirs:
+            base = rng.choice(dirs)
+            world.write(base + '/' + rng.choice(['.git/config', '.git/HEAD', '.agentpack/notes.md', '.agentpack/x/y.txt']), b'the user\'s own\n')
+            return 'hidden_userfile'
     if k < 0.6:
         p = rng.choice([cw.codex_home + '/prompts/mine.md', cw.codex_home + '/notes.txt', cw.codex_home + '/skills/own/SKILL.md',
                         cw.claude_cmds + '/mine.md', cw.project + '/README.md'])
@@ -977,6 +994,40 @@ def script_backported_edit(st, cw, sb, rng):
         return tags, rng.choice(CONFIRMED_ENTRIES), False, None
     return None
 
+def eol_variant(b, rng):
+    """the same text with other line terminators: LF <-> CRLF, final newline dropped / added / doubled"""
+    k = rng.randrange(4)
+    if b'\r\n' in b: v = b.replace(b'\r\n', b'\n')
+    elif k == 0 and b'\n' in b: v = b.replace(b'\n', b'\r\n')
+    elif k == 1 and b.endswith(b'\n'): v = b[:-1]
+    elif k == 2: v = b + b'\n'
+    elif b'\n' in b: v = b.replace(b'\n', b'\r\n')
+    else: v = b + b'\n'
+    return v
+
+def script_eol_only(st, cw, sb, rng):
+    """deploy; (1) every module's text changes in its line terminators only (LF <-> CRLF, final newline): the outputs
+    are other BYTES and the deploy must write them; (2) the user re-saves deployed files with other line terminators:
+    drift like any other, the next deploy restores the desired bytes"""
+    if st == 0:
+        return ['script:all'], 'cli_json', True, None
+    if st == 1:
+        for m in cw.modules:
+            for fn in sorted(m['files']):
+                if m['files'][fn] and not (fn == 'SKILL.md' or m['type'] == 'command'):
+                    m['files'][fn] = eol_variant(m['files'][fn], rng)
+                elif m['files'][fn].endswith(b'\n'):
+                    m['files'][fn] = m['files'][fn] + b'\n' if rng.random() < 0.5 else m['files'][fn][:-1]
+        cw.write()
+        return ['cfg:content_eol_all'], rng.choice(CONFIRMED_ENTRIES), False, None
+    if st == 2:
+        tags = []
+        for d in cw.desired(None):
+            if os.path.exists(d['path']) and not os.path.islink(d['path']) and d['bytes'] and rng.random() < 0.7:
+                world.write(d['path'], eol_variant(d['bytes'], rng)); tags.append('user:eol_resave')
+        return tags, rng.choice(CONFIRMED_ENTRIES), False, None
+    return None
+
 def script_case_rename(st, cw, sb, rng):
     """deploy; a module's file is renamed to a spelling that differs only in letter case (the old output becomes
     managed-but-undesired, the new spelling is a NEW path); the user already has a file of their own at the new
@@ -1009,6 +1060,57 @@ def hist_bootstrap_then_rollback(st, cw, sb, rng, hs):
         return {'kind': 'deploy', 'adopt': False, 'flt': None, 'entry': 'cli_json', 'tags': ['script:deploy_again']}
     if st == 4: return {'kind': 'bootstrap', 'tags': ['script:bootstrap']}
     if st == 5: return {'kind': 'rollback', 'to': rng.choice([0, 3]), 'tags': ['script:rollback']}
+    return None
+
+def script_remove_with_hidden_user_files(st, cw, sb, rng):
+    """deploy; the user keeps files of their own inside deployed skill / prompt directories, in places a file listing
+    that skips metadata does not see (.git/, .agentpack/); the modules leave the configuration; deploy without --adopt
+    removes the recorded files only"""
+    if st == 0:
+        return ['script:all'], 'cli_json', True, None
+    if st in (1, 2):
+        tags = []
+        for base in sorted({os.path.dirname(d['path']) for d in cw.desired(None)} - {cw.project, cw.project + '/.github'}):
+            if rng.random() < 0.7:
+                world.write(base + '/' + rng.choice(['.git/config', '.git/HEAD', '.agentpack/notes.md']), b'the user\'s own\n'); tags.append('user:hidden_userfile')
+        ty = rng.choice(sorted({m['type'] for m in cw.modules if m['enabled']}) or ['skill'])
+        for m in cw.modules:
+            if m['type'] == ty: m['enabled'] = False
+        cw.write()
+        return tags + ['cfg:disable_all_' + ty], rng.choice(CONFIRMED_ENTRIES), False, None
+    return None
+
+def hist_readd_after_removal(st, cw, sb, rng, hs):
+    """S0; a prompt is added (S1) and removed again (S2: its file is deleted and no record lists it any more); the user
+    creates a file of their own at that path; rollback to S0 may delete only what the HEAD records beyond S0"""
+    if st == 0: return {'kind': 'deploy', 'adopt': False, 'flt': None, 'entry': 'cli_json', 'tags': ['script:all']}
+    if st == 1: cw.add_prompt(); cw.write(); return {'kind': 'deploy', 'adopt': False, 'flt': None, 'entry': 'cli_json', 'tags': ['script:add']}
+    if st == 2:
+        cw.modules[-1]['enabled'] = False; cw.write()
+        return {'kind': 'deploy', 'adopt': False, 'flt': None, 'entry': rng.choice(['cli_json', 'mcp']), 'tags': ['script:remove']}
+    if st == 3:
+        m = cw.modules[-1]; m['enabled'] = True; paths = [d['path'] for d in cw.desired(None) if os.path.basename(d['path']).split('.')[0] == sorted(m['files'])[0].split('.')[0]]
+        m['enabled'] = False
+        for q in paths: world.write(q, b'the user\'s own file at a formerly deployed path\n')
+        return {'kind': 'rollback', 'to': 0, 'tags': ['script:rollback_to_S0', 'user:recreate']}
+    return None
+
+def hist_drift_then_deploy(st, cw, sb, rng, hs):
+    """S0; the user edits a deployed file; the module changes and S1 rewrites that file; rollback to S0 brings back
+    S0's bytes (from the snapshot's own copy, not from the backup S1 took of the drifted file)"""
+    if st == 0: return {'kind': 'deploy', 'adopt': False, 'flt': None, 'entry': 'cli_json', 'tags': ['script:all']}
+    if st == 1:
+        D = cw.desired(None); victims = rng.sample(D, min(len(D), rng.randrange(1, 3)))
+        for d in victims: world.write(d['path'], b'local edit made after S0\n')
+        for m in cw.modules:
+            for fn in sorted(m['files']):
+                if fn == 'SKILL.md': m['files'][fn] = skill_md(m['id'].split(':')[1], 'second')
+                elif m['type'] == 'command': m['files'][fn] = command_md('do second')
+                else: m['files'][fn] = b'second version of %s\n' % fn.encode()
+        cw.write()
+        return {'kind': 'deploy', 'adopt': False, 'flt': None, 'entry': rng.choice(['cli_json', 'cli_human_yes', 'mcp']), 'tags': ['script:second', 'user:drift']}
+    if st == 2: return {'kind': 'rollback', 'to': 0, 'tags': ['script:rollback_to_parent']}
+    if st == 3: return {'kind': 'rollback', 'to': 1, 'tags': ['script:redo']}
     return None
 
 def setup_all_targets(cw, rng):
@@ -1382,6 +1484,17 @@ def run_hist_stream(ctx, nhist, depth, props, weights, stream='full_hist', tampe
                         ctx.violation('a rejected rollback wrote to the target roots', rec)
                     if ok and (ordn >= len(hs.snaps) or tgt_is_rb):
                         ctx.violation('rollback accepted a rollback record / unknown id as target', rec)
+                    if ok and 'C02' in props:
+                        # rollback deletes only what the HEAD snapshot records beyond the chosen one
+                        head = None
+                        for i_, sn in enumerate(hs.snaps):
+                            if sn['kind'] in ('deploy', 'bootstrap'): head = i_
+                            elif sn['kind'] == 'rollback': head = sn['to']
+                        if head is not None and ordn < len(hs.snaps):
+                            hp = {d['path'] for d in hs.snaps[head]['D']}; sp = {d['path'] for d in hs.snaps[ordn]['D']}
+                            for q in sorted(set(before) - set(after)):
+                                if not is_manifest_name(os.path.basename(q)) and (q not in hp or q in sp):
+                                    ctx.violation('rollback deleted a file the head snapshot does not record (or the chosen one records): %s' % q, dict(rec, path=q))
                     if ok:
                         for vio in oracle_rollback(ctx, props, hs, ordn, before, after, sb, base, rec):
                             pass
@@ -1562,6 +1675,18 @@ def oracle_ledger(ctx, hs, cw, after, base, ids, rec):
             ctx.known_finding(cls, KNOWN_TEXT[cls])
         else:
             ctx.violation('a file agentpack wrote and has not deleted is not listed in its root\'s manifest: %s' % p, r2)
+    # "consequently ... its removal from the configuration is planned as a delete": a successful deploy covering the
+    # file's target, with the file's root still among the roots, leaves no file behind that agentpack wrote (and still
+    # records) but no longer wants
+    if kind == 'deploy' and rec.get('outcome') == 0 and hs.snaps and hs.snaps[-1]['kind'] == 'deploy':
+        S_ = hs.snaps[-1]
+        Dk_ = {(d['target'], d['path']) for d in S_['D']}
+        roots_ = {(r['target'], r['root']) for r in S_['R']}
+        for p, o in sorted(hs.owned.items()):
+            if (p in after and p not in hs.lost and (o['target'], p) not in Dk_ and o['kind'] in ('deploy', 'rollback')
+                    and (S_['flt'] is None or S_['flt'] == o['target']) and (o['target'], o['root']) in roots_):
+                ctx.violation('a file agentpack wrote and still records left the configuration, and a successful deploy of its target neither '
+                              'planned its delete nor removed it: %s' % p, dict(rec, path=p))
     # converse (C15_listed_is_desired): a manifest (re)written by this deploy / bootstrap lists only files of its desired state
     if kind in ('deploy', 'bootstrap') and hs.snaps and rec.get('plan') is not None:
         Dk = {(d['target'], d['path']) for d in hs.snaps[-1]['D']} if (kind == 'bootstrap' or rec.get('outcome') == 0) else None
